@@ -122,6 +122,11 @@ def _terrain(rng, H, W):
         Z = np.zeros((H, W)); Z[H // 3:, W // 3:] = 2; Z[H // 2:, W // 2:] = 2
     else:
         Z = rng.integers(0, 50, (H, W)).astype(str(rng.choice(['int64', 'int32', 'uint8'])))
+        if Z.dtype.itemsize >= 4 and rng.random() < 0.5:
+            # integer elevations beyond 2**24 (millimetre DEMs, packed ids): relief of a few units on a base that single precision
+            # cannot resolve; exact in the double precision the model is stated in
+            Z = (Z % 8 + int(rng.choice([2 ** 24, 2 ** 26 + 1, 2 ** 30]))).astype(str(rng.choice(['int32', 'uint32', 'int64'])))
+            kind = 'intdtype_large'
     return kind, Z
 
 
